@@ -88,6 +88,11 @@ def DiffAct.steps : DiffAct → List String
   | .compare => [stmtCompare]
   | .replace => [stmtDelete, stmtFlattenRight]
 
+def DiffAct.all : List DiffAct := [.recurse, .lists, .compare, .replace]
+
+/-- the decision a statement list stands for (the four lists are pairwise different) -/
+def DiffAct.ofSteps (ss : List String) : Option DiffAct := DiffAct.all.find? (fun a => a.steps == ss)
+
 /-- the ORDERED case table of `emitNode`: (left kind, right kind) or `none` = any; first match decides -/
 def diffCases : List (Option Shape × Option Shape × DiffAct) :=
   [(some .container, some .container, .recurse), (some .list, some .list, .lists),
@@ -147,6 +152,20 @@ def ApplyAct.goName : ApplyAct → String
 /-- `applySingle`, table-driven -/
 def applySingleT (kvs : AMap Node) (m : Mod) : AMap Node :=
   match applyTable.lookup m.ty with
+  | some a => a.run kvs m
+  | none => kvs
+
+/-- the rows of the `switch mod.Type`, as the extractor spells them -/
+def applyRowsM : List Row := applyTable.map fun p => ⟨(ModType.goConst p.1).1, p.1.name, p.2.goName⟩
+
+def ApplyAct.ofGoName (s : String) : Option ApplyAct :=
+  if s = ApplyAct.addValue.goName then some .addValue
+  else if s = ApplyAct.remove.goName then some .remove else none
+
+/-- `applySingle` RUN FROM a (regenerated) case table: the row of the modification's type names the
+    action; no row, or a row the model does not understand, does nothing -/
+def applySingleBy (tbl : List Row) (kvs : AMap Node) (m : Mod) : AMap Node :=
+  match (tbl.find? (·.key == m.ty.name)).bind (fun r => ApplyAct.ofGoName r.target) with
   | some a => a.run kvs m
   | none => kvs
 
@@ -218,6 +237,24 @@ def mod2opFieldsM : List (String × List (String × String)) :=
   ModType.all.map fun t =>
     (t.name, [("Op", opConstOfMod t), ("Path", "PointerFromPropPathString(arg0.Path)")] ++
              (if carriesValue t then [("Value", "dom.LeafNode(arg0.Value)")] else []))
+
+/-- the rows of the `switch mod.Type`, as the extractor spells them -/
+def mod2opRowsM : List TableT.Row := ModType.all.map fun t => ⟨"diff.Mod" ++ t.name, t.name, opOfMod t⟩
+
+/-- DiffMod2PatchOp RUN FROM a (regenerated) case table and field table: the case of the modification's
+    type gives the operation; Path / Value are set when the field table lists them with the expressions
+    the model understands; `none` = nil (no case, or the case returns nil) -/
+def mod2opBy (tbl : List TableT.Row) (fields : List (String × List (String × String))) (ptr : String → Path)
+    (m : Mod) : Option OpObj :=
+  match tbl.find? (·.key == m.ty.name) with
+  | none => none
+  | some r =>
+    if r.target = "nil" then none
+    else
+      let fs := (fields.lookup r.key).getD []
+      some ⟨r.target, none,
+        if fs.lookup "Path" = some "PointerFromPropPathString(arg0.Path)" then some (ptr m.path) else none,
+        if fs.lookup "Value" = some "dom.LeafNode(arg0.Value)" then some (.leaf m.value) else none⟩
 
 end Ytk.Xform
 
